@@ -12,6 +12,7 @@ for g in gen/gen_*.py; do
     gen/gen_doc_limits.py) python3 "$g" /repo coq/DocLimits.v ;;
     gen/gen_routing_sites.py) python3 "$g" /repo coq/RoutingSites.v ;;
     gen/gen_tx_order.py) python3 "$g" /repo coq/TxOrder.v ;;
+    gen/gen_itemcache_locks.py) python3 "$g" /repo coq/ItemCacheLocks.v ;;
   esac
 done
 ./lib/mkcoqproject.sh
